@@ -457,7 +457,7 @@ func TestVerifC09Mid(t *testing.T) {
 	oldClk := clk
 	clk = fakeclock.NewFakeClock(c09Now)
 	t.Cleanup(func() { clk = oldClk })
-	kit.Run(t, kit.Config{Property: "C09", Unit: "mid", Quick: 10000, Thorough: 50000,
+	kit.Run(t, kit.Config{Property: "C09", Unit: "mid", Quick: 10000, Thorough: 500000,
 		Rule: "random node, reservations, 0-12 pods over priority class x phase, host applications, system/node usage (5% without a cpu or memory key), prod-reclaimable present/absent, mode nil/static/other, all mid percentages present/absent, metric age around the degrade time or missing; each fresh input is followed by 2 probes raising one consumption input (counted, not a verdict); distinct = (mode, percentages set, node usage valid, reclaimable set, outcome class per resource); non-trivial = fresh metric and a positive mid amount"},
 		func(c *kit.Case) {
 			r := c.R
